@@ -248,6 +248,25 @@ def apply_clauses(src, clauses):
                     edits.append((toks[first].start, toks[first].start,
                                   " ".join(pre).replace("$K", str(n)) + "\n"))
                 edits.append((toks[bo].start, toks[bo].start, "\n" + inv.replace("$K", str(n)) + "\n"))
+        elif op in ("nested_sig", "nested_body"):
+            c = dict(c, where=("body" if op == "nested_body" else "sig"))
+            # contract of a `fn NAME` item nested in the body of the cut function
+            nm = c["name"]
+            hits = [k for k in range(body + 1, toks[body].mate) if toks[k].text == "fn" and toks[k].kind == "ident"
+                    and toks[k + 1].text == nm] if body >= 0 else []
+            if len(hits) != 1:
+                raise LostAnchor(f"nested_sig: {len(hits)} nested fn `{nm}`")
+            k = hits[0]
+            d = toks[k].depth
+            j = k + 1
+            while j < len(toks) and not (toks[j].text == "{" and toks[j].depth == d):
+                if toks[j].kind == "open":
+                    j = toks[j].mate
+                j += 1
+            if c.get("where") == "body":
+                edits.append((toks[j].end, toks[j].end, "\n" + c["text"].rstrip() + "\n"))
+            else:
+                edits.append((toks[j].start, toks[j].start, "\n" + c["text"].rstrip() + "\n"))
         elif op == "around_all":
             # every statement containing the literal anchor gets <pre> before it and <post> after its `;`
             # (zero occurrences are fine: the clause comes from a template shared by many functions)
